@@ -441,10 +441,16 @@ func CheckMarshal(tx *gobinlog.Transaction, snap hx.TxSnap) string {
 		return "output is not valid JSON"
 	}
 	var doc struct {
-		Now    struct{ Filename string; Offset int64 } `json:"nowPosition"`
-		Next   struct{ Filename string; Offset int64 } `json:"nextPosition"`
-		TS     string                                  `json:"timestamp"`
-		Events []map[string]json.RawMessage            `json:"events"`
+		Now struct {
+			Filename string
+			Offset   int64
+		} `json:"nowPosition"`
+		Next struct {
+			Filename string
+			Offset   int64
+		} `json:"nextPosition"`
+		TS     string                       `json:"timestamp"`
+		Events []map[string]json.RawMessage `json:"events"`
 	}
 	if err := json.Unmarshal(b, &doc); err != nil {
 		return "output does not decode: " + err.Error()
@@ -738,4 +744,481 @@ func ReplayMarshal(input json.RawMessage) (bool, string) {
 		}
 	}
 	return false, "all deliveries serialise faithfully"
+}
+
+// ---- the same Streamer across a master restart (table ids start again) ----------
+
+// RestartInput is the replay form of a restart execution: the tokens before
+// "|" are logged in the first binlog file, the connection is lost when that file
+// has been served, the master "restarts" (a new file, table ids handed out
+// again) and the SAME Streamer object streams on from its stored position.
+// After "|" the tokens TMa<i> / TMb<i> announce, for the id of <i>, another
+// table: a = shop.refund (same column count as shop.item, other names and
+// signedness), b = shop.note (two columns).
+type RestartInput struct {
+	Script   []string `json:"script"`
+	Cfg      ref.Cfg  `json:"cfg"`
+	LockStep bool     `json:"lockstep"`
+}
+
+func altTable(kind byte, id uint64) *ref.Table {
+	if kind == 'a' {
+		return &ref.Table{ID: id, DB: "shop", Name: "refund", Flags: 1, Cols: []ref.Column{
+			ref.ColInt(ref.TLong, "rid", true), ref.ColVarchar("reason", 40), ref.ColInt(ref.TShort, "cents", false)}}
+	}
+	return &ref.Table{ID: id, DB: "shop", Name: "note", Flags: 1, Cols: []ref.Column{
+		ref.ColInt(ref.TLong, "nid", true), ref.ColVarchar("txt", 40)}}
+}
+
+func altRow(t *ref.Table, k int64) ref.Image {
+	img := ref.Image{ref.VInt(ref.TLong, 4000000000+k, true), ref.VVarchar(40, []byte(fmt.Sprintf("alt-%d", k)))}
+	if len(t.Cols) == 3 {
+		img = append(img, ref.VInt(ref.TShort, -k, false))
+	}
+	return img
+}
+
+func buildRestart(in RestartInput) *ref.History {
+	g := &Gen{Cfg: in.Cfg}
+	f1 := &ref.File{Name: "mysql-bin.000001"}
+	f2 := &ref.File{Name: "mysql-bin.000002"}
+	cur := f1
+	latest := map[int]*ref.Table{}
+	k := int64(0)
+	for _, tok := range in.Script {
+		ts := g.tick()
+		k++
+		switch {
+		case tok == "|":
+			cur.Events = append(cur.Events, ref.Rot(ts, f2.Name))
+			cur = f2
+			latest = map[int]*ref.Table{}
+		case tok == "B":
+			cur.Events = append(cur.Events, ref.Q(ts, "shop", "BEGIN"))
+		case tok == "X":
+			cur.Events = append(cur.Events, ref.X(ts, uint64(7000+k)))
+		case strings.HasPrefix(tok, "TMa"), strings.HasPrefix(tok, "TMb"):
+			id := int(tok[3] - '0')
+			t := altTable(tok[2], scriptTable(id, false).ID)
+			latest[id] = t
+			cur.Events = append(cur.Events, ref.TM(ts, t))
+		case strings.HasPrefix(tok, "TM"):
+			id := int(tok[2] - '0')
+			t := scriptTable(id, false)
+			latest[id] = t
+			cur.Events = append(cur.Events, ref.TM(ts, t))
+		default:
+			id := int(tok[1] - '0')
+			t := latest[id]
+			row := func(k int64) ref.Image {
+				if t.Name == "refund" || t.Name == "note" {
+					return altRow(t, k)
+				}
+				return scriptRow(t, k)
+			}
+			switch tok[0] {
+			case 'W':
+				cur.Events = append(cur.Events, ref.R(ts, ref.RowWrite, t, ref.RowChange{After: row(k)}))
+			case 'U':
+				cur.Events = append(cur.Events, ref.R(ts, ref.RowUpdate, t, ref.RowChange{Before: row(k), After: row(k + 500)}))
+			case 'D':
+				cur.Events = append(cur.Events, ref.R(ts, ref.RowDelete, t, ref.RowChange{Before: row(k)}))
+			}
+		}
+	}
+	h := &ref.History{Cfg: in.Cfg, Files: []*ref.File{f1, f2}}
+	h.Layout()
+	return h
+}
+
+func checkRestart(in RestartInput) string {
+	h := buildRestart(in)
+	start := ref.Position{File: "mysql-bin.000001", Pos: 4}
+	served, _ := h.Serve(start.File, 4)
+	exp, stop := ref.Expect(served, start)
+	if stop != nil {
+		return "generator error: " + stop.Why
+	}
+	rot := -1
+	for i, e := range served {
+		if e.Kind == ref.ARotate && !e.Artificial {
+			rot = i
+			break
+		}
+	}
+	if rot < 0 {
+		return "generator error: no rotation"
+	}
+	mapper := hx.NewMapper(scriptTable(1, false), scriptTable(2, false), altTable('a', 0), altTable('b', 0))
+	// connection 1 is lost when the first file has been served (before the
+	// ROTATE reaches the client); connection 2 serves from the resume position
+	out := Run(h, Opts{Start: start, ServerID: 3, LockStep: in.LockStep, Mapper: mapper, Attempts: 2,
+		Plans: []simmaster.Plan{{At: rot, Kind: "fin", Final: "eof"}, {At: -1, Final: "eof"}}})
+	if out.Hung {
+		return "HUNG"
+	}
+	for a, p := range out.StreamPanic {
+		if p != "" {
+			return fmt.Sprintf("panic in Stream (attempt %d): %s", a, p)
+		}
+	}
+	if len(out.StreamErr) > 1 && out.StreamErr[1] != nil {
+		return "the second Stream call of the same Streamer failed on a well-formed binlog: " + clip(out.StreamErr[1].Error(), 200)
+	}
+	if d := hx.CompareAll(exp, out.Snaps()); d != "" {
+		return "deliveries over both attempts of the same Streamer: " + d
+	}
+	return ""
+}
+
+// RunRestart is shared by C01 and C15: the same Streamer object across a master
+// restart after which a table id names another table.
+func RunRestart(r *chk.Run) {
+	firsts := [][]string{
+		{"B", "TM1", "W1", "X"},
+		{"B", "TM1", "U1", "X", "B", "TM2", "W2", "X"},
+		{"B", "TM1", "TM2", "W1", "D2", "X"},
+	}
+	seconds := [][]string{
+		{"B", "TMa1", "W1", "X"},
+		{"B", "TMb1", "W1", "X"},
+		{"B", "TMa1", "U1", "X", "B", "TM2", "D2", "X"},
+		{"B", "TM2", "W2", "X", "B", "TMb1", "D1", "X"},
+		{"B", "TM1", "W1", "X"},
+	}
+	var n, trans int64
+	for _, cfg := range Cfgs() {
+		for _, a := range firsts {
+			for _, b := range seconds {
+				for _, lock := range []bool{true, false} {
+					if r.Expired() {
+						r.SetExhaustive(false)
+						return
+					}
+					script := append(append(append([]string{}, a...), "|"), b...)
+					in := RestartInput{Script: script, Cfg: cfg, LockStep: lock}
+					n++
+					trans += int64(len(script))
+					why := checkRestart(in)
+					if why == "HUNG" {
+						chk.Fatalf("restart: Stream did not return within 60 s on script %v", script)
+					}
+					if why != "" {
+						r.Report(chk.Violation{Key: "restart:" + attrKey(why), What: fmt.Sprintf("script=%v cfg=%s lockstep=%v: %s", script, CfgName(cfg), lock, why),
+							Kind: "restart", Replay: in, Recheck: func() string { return checkRestart(in) }})
+					}
+				}
+			}
+		}
+	}
+	r.Eval(n)
+	r.States(n)
+	r.Transitions(trans)
+	r.DistinctN(n)
+	r.Set("restart_histories", n)
+	r.Set("restart_space", fmt.Sprintf("%d first-file scripts x %d second-file scripts (the id of shop.item names shop.refund / shop.note after the restart, or the same table again) x %d configurations x lock-step / free pacing; connection lost at the end of the first file, second Stream call on the same Streamer", len(firsts), len(seconds), len(Cfgs())))
+}
+
+// ReplayRestart replays a restart execution.
+func ReplayRestart(input json.RawMessage) (bool, string) {
+	var in RestartInput
+	if err := json.Unmarshal(input, &in); err != nil {
+		return false, err.Error()
+	}
+	why := checkRestart(in)
+	if why == "" {
+		return false, "both attempts deliver exactly the committed transactions, attributed to the tables announced in their own file"
+	}
+	return true, why
+}
+
+// ---- values that share the leading part of their text ---------------------------
+
+// RunSharedText streams transactions whose temporal / decimal values share
+// their leading text with the value decoded just before them (same second,
+// other fraction: two images of an UPDATE, rows of one event, consecutive
+// transactions), in every wire configuration. Oracle: C01's (deliveries equal
+// the reference, and are still equal when read again after the stream ended).
+func RunSharedText(r *chk.Run) {
+	var n int64
+	for _, cfg := range Cfgs() {
+		for _, v := range []string{"S", "I"} {
+			for _, lock := range []bool{true, false} {
+				if r.Expired() {
+					r.SetExhaustive(false)
+					return
+				}
+				in := HistInput{Units: []string{"sh" + v + "1", "sh" + v + "2", "sh" + v + "3", UTxXID}, Cfg: cfg, LockStep: lock, Oracle: "fidelity"}
+				n++
+				why, _, _ := checkGrouping(in)
+				if why == "HUNG" {
+					chk.Fatalf("shared text: Stream did not return within 60 s (%v)", in.Units)
+				}
+				if why != "" {
+					r.Report(chk.Violation{Key: "sharedtext:" + classify(why), What: fmt.Sprintf("units=%v cfg=%s lockstep=%v: %s", in.Units, CfgName(cfg), lock, why),
+						Kind: "history", Replay: in, Recheck: func() string { w, _, _ := checkGrouping(in); return w }})
+				}
+			}
+		}
+	}
+	r.Eval(n)
+	r.States(n)
+	r.DistinctN(n)
+	r.Set("shared_text_histories", n)
+}
+
+// ReplaySharedText replays a shared-text history (a HistInput).
+func ReplaySharedText(input json.RawMessage) (bool, string) { return replayHist("history", input) }
+
+// ---- a schema that changes while the stream runs ----------------------------------
+
+// SchemaInput is the replay form of a schema-change execution: a table is
+// written under one table id, an ALTER changes the signedness (variant "sign")
+// or the names (variant "name") of its columns, and the table is written again
+// under the next table id, in ONE stream. The mapper answers the second lookup
+// with the new definition.
+type SchemaInput struct {
+	Variant string  `json:"variant"`
+	Cfg     ref.Cfg `json:"cfg"`
+	Kind    int     `json:"kind"` // rows event kind of the second transaction
+}
+
+func checkSchema(in SchemaInput) string {
+	v1 := &ref.Table{ID: 100, DB: "shop", Name: "gauge", Flags: 1, Cols: []ref.Column{
+		ref.ColInt(ref.TLong, "id", false), ref.ColInt(ref.TLong, "v", false), ref.ColInt(ref.TTiny, "w", false), ref.ColInt(ref.TLongLong, "x", true)}}
+	v2 := &ref.Table{ID: 101, DB: "shop", Name: "gauge", Flags: 1, Cols: append([]ref.Column{}, v1.Cols...)}
+	switch in.Variant {
+	case "sign":
+		v2.Cols[1].Unsigned, v2.Cols[2].Unsigned, v2.Cols[3].Unsigned = true, true, false
+	case "name":
+		v2.Cols[1].Name, v2.Cols[2].Name = "value", "weight"
+	}
+	row := func(t *ref.Table, k int64) ref.Image {
+		// cells with the top bit set: the text depends on the signedness
+		return ref.Image{ref.VInt(ref.TLong, k, false),
+			ref.Cell{Raw: []byte{0xff, 0xff, 0xff, 0xff}, Text: []byte(map[bool]string{false: "-1", true: "4294967295"}[t.Cols[1].Unsigned])},
+			ref.Cell{Raw: []byte{0x80}, Text: []byte(map[bool]string{false: "-128", true: "128"}[t.Cols[2].Unsigned])},
+			ref.Cell{Raw: []byte{0, 0, 0, 0, 0, 0, 0, 0x80}, Text: []byte(map[bool]string{false: "-9223372036854775808", true: "9223372036854775808"}[t.Cols[3].Unsigned])}}
+	}
+	g := &Gen{Cfg: in.Cfg}
+	ts := g.tick()
+	second := ref.RowChange{After: row(v2, 2)}
+	if in.Kind == 1 {
+		second = ref.RowChange{Before: row(v2, 2), After: row(v2, 3)}
+	} else if in.Kind == 2 {
+		second = ref.RowChange{Before: row(v2, 2)}
+	}
+	evs := []*ref.AEvent{
+		ref.Q(ts, "shop", "BEGIN"), ref.TM(ts, v1), ref.R(ts, ref.RowWrite, v1, ref.RowChange{After: row(v1, 1)}), ref.X(ts+1, 801),
+		ref.Q(ts+2, "shop", "ALTER TABLE gauge MODIFY v INT UNSIGNED"),
+		ref.Q(ts+3, "shop", "BEGIN"), ref.TM(ts+3, v2), ref.R(ts+3, ref.RowKind(in.Kind), v2, second), ref.X(ts+4, 802),
+		// ... and once more under the first id's successor
+		ref.Q(ts+5, "shop", "BEGIN"), ref.TM(ts+5, v2), ref.R(ts+5, ref.RowWrite, v2, ref.RowChange{After: row(v2, 4)}), ref.X(ts+6, 803),
+	}
+	h := &ref.History{Cfg: in.Cfg, Files: []*ref.File{{Name: "mysql-bin.000001", Events: evs}}}
+	h.Layout()
+	start := ref.Position{File: "mysql-bin.000001", Pos: 4}
+	served, _ := h.Serve(start.File, 4)
+	exp, stop := ref.Expect(served, start)
+	if stop != nil {
+		return "generator error: " + stop.Why
+	}
+	mapper := hx.NewMapper(v1)
+	mapper.Versions = map[string][]*ref.Table{"shop.gauge": {v1, v2}}
+	out := Run(h, Opts{Start: start, ServerID: 3, LockStep: true, Mapper: mapper})
+	if out.Hung {
+		return "HUNG"
+	}
+	if out.StreamPanic[0] != "" {
+		return "panic in Stream: " + out.StreamPanic[0]
+	}
+	if out.StreamErr[0] != nil {
+		return "Stream failed on a well-formed binlog: " + clip(out.StreamErr[0].Error(), 200)
+	}
+	return hx.CompareAll(exp, out.Snaps())
+}
+
+// RunSchemaChange is shared by C10 (signedness comes from the mapper's answer
+// for the table id in force) and C15.
+func RunSchemaChange(r *chk.Run) {
+	var n int64
+	for _, cfg := range Cfgs() {
+		for _, v := range []string{"sign", "name"} {
+			for kind := 0; kind < 3; kind++ {
+				in := SchemaInput{Variant: v, Cfg: cfg, Kind: kind}
+				n++
+				why := checkSchema(in)
+				if why == "HUNG" {
+					chk.Fatalf("schema change: Stream did not return within 60 s")
+				}
+				if why != "" {
+					r.Report(chk.Violation{Key: "schema-change:" + v, What: fmt.Sprintf("variant=%s kind=%d cfg=%s: %s", v, kind, CfgName(cfg), why),
+						Kind: "schema", Replay: in, Recheck: func() string { return checkSchema(in) }})
+				}
+			}
+		}
+	}
+	r.Eval(n)
+	r.States(n)
+	r.DistinctN(n)
+	r.Set("schema_change_histories", n)
+}
+
+// ReplaySchema replays a schema-change execution.
+func ReplaySchema(input json.RawMessage) (bool, string) {
+	var in SchemaInput
+	if err := json.Unmarshal(input, &in); err != nil {
+		return false, err.Error()
+	}
+	why := checkSchema(in)
+	if why == "" {
+		return false, "rows under the new table id carry the names and signedness of the new definition"
+	}
+	return true, why
+}
+
+// ---- C10: every numeric cell shape through Rows() and the streamer ----------------
+
+// NumInput is the replay form of a numeric-shapes execution.
+type NumInput struct {
+	Group int     `json:"group"` // 0 BIT(1..32), 1 BIT(33..64), 2 the other numeric shapes
+	Cfg   ref.Cfg `json:"cfg"`
+	Kind  int     `json:"kind"`
+	Rows  int     `json:"rows"`
+}
+
+func numTable(group int) (*ref.Table, func(r int) ref.Image) {
+	t := &ref.Table{ID: 88, DB: "shop", Name: fmt.Sprintf("numbers%d", group), Flags: 1}
+	var gens []func(r int) ref.Cell
+	add := func(c ref.Column, f func(r int) ref.Cell) { t.Cols = append(t.Cols, c); gens = append(gens, f) }
+	switch group {
+	case 0, 1:
+		for w := 1 + 32*group; w <= 32+32*group; w++ {
+			w := w
+			add(ref.ColBit(fmt.Sprintf("b%d", w), w), func(r int) ref.Cell {
+				v := uint64(0xa5c3f00f9696e187) >> uint(64-w)
+				if r%2 == 1 {
+					v = ^v & (^uint64(0) >> uint(64-w))
+				}
+				return ref.VBit(w, v)
+			})
+		}
+	default:
+		for _, u := range []bool{false, true} {
+			u := u
+			for _, ty := range []byte{ref.TTiny, ref.TShort, ref.TInt24, ref.TLong, ref.TLongLong} {
+				ty := ty
+				add(ref.ColInt(ty, fmt.Sprintf("i%d_%v", ty, u), u), func(r int) ref.Cell {
+					if u {
+						bits := map[byte]uint{ref.TTiny: 8, ref.TShort: 16, ref.TInt24: 24, ref.TLong: 32, ref.TLongLong: 64}[ty]
+						v := ^uint64(0) >> (64 - bits)
+						if r%2 == 1 {
+							v = 1 << (bits - 1)
+						}
+						if ty == ref.TLongLong {
+							return ref.VUint64(v)
+						}
+						return ref.VInt(ty, int64(v), true)
+					}
+					return ref.VInt(ty, int64(-1-r), false)
+				})
+			}
+		}
+		add(ref.ColFloat("f"), func(r int) ref.Cell { return ref.VFloat(float32(r) + 0.5) })
+		add(ref.ColDouble("d"), func(r int) ref.Cell { return ref.VDouble(-1e15 + float64(r)) })
+		add(ref.ColPlain(ref.TYear, "y"), func(r int) ref.Cell { return ref.VYear(1901 + (r%2)*254) })
+		add(ref.ColEnum("e1", 1), func(r int) ref.Cell { return ref.VEnum(1, uint16(255-r)) })
+		add(ref.ColEnum("e2", 2), func(r int) ref.Cell { return ref.VEnum(2, uint16(65535-r)) })
+		for n := 1; n <= 8; n++ {
+			n := n
+			add(ref.ColSet(fmt.Sprintf("s%d", n), n), func(r int) ref.Cell { return ref.VSet(n, (^uint64(0)>>uint(64-8*n))-uint64(r)) })
+		}
+	}
+	return t, func(r int) ref.Image {
+		img := make(ref.Image, len(gens))
+		for i, f := range gens {
+			img[i] = f(r)
+		}
+		return img
+	}
+}
+
+func checkNum(in NumInput) string {
+	t, row := numTable(in.Group)
+	g := &Gen{Cfg: in.Cfg}
+	ts := g.tick()
+	var rows []ref.RowChange
+	for r := 0; r < in.Rows; r++ {
+		rc := ref.RowChange{}
+		if in.Kind != 0 {
+			rc.Before = row(2 * r)
+		}
+		if in.Kind != 2 {
+			rc.After = row(2*r + 1)
+		}
+		rows = append(rows, rc)
+	}
+	evs := []*ref.AEvent{ref.Q(ts, "shop", "BEGIN"), ref.TM(ts, t), ref.R(ts, ref.RowKind(in.Kind), t, rows...), ref.X(ts+1, 811)}
+	h := &ref.History{Cfg: in.Cfg, Files: []*ref.File{{Name: "mysql-bin.000001", Events: evs}}}
+	h.Layout()
+	start := ref.Position{File: "mysql-bin.000001", Pos: 4}
+	served, _ := h.Serve(start.File, 4)
+	exp, stop := ref.Expect(served, start)
+	if stop != nil {
+		return "generator error: " + stop.Why
+	}
+	out := Run(h, Opts{Start: start, ServerID: 3, LockStep: false})
+	if out.Hung {
+		return "HUNG"
+	}
+	if out.StreamPanic[0] != "" {
+		return "panic in Stream: " + firstLine(out.StreamPanic[0])
+	}
+	if out.StreamErr[0] != nil {
+		return "Stream failed on a well-formed binlog: " + clip(out.StreamErr[0].Error(), 200)
+	}
+	return hx.CompareAll(exp, out.Snaps())
+}
+
+// RunNumericShapes streams rows events of 1..3 rows over tables that hold every
+// BIT width 1..64 and every other numeric cell shape of C10, in every wire
+// configuration (the cut between rows is made by the per-type length rule: a
+// value decoder alone cannot show a wrong cut).
+func RunNumericShapes(r *chk.Run) {
+	var n int64
+	for _, cfg := range Cfgs() {
+		for group := 0; group < 3; group++ {
+			for kind := 0; kind < 3; kind++ {
+				for rows := 1; rows <= 3; rows++ {
+					in := NumInput{Group: group, Cfg: cfg, Kind: kind, Rows: rows}
+					n++
+					why := checkNum(in)
+					if why == "HUNG" {
+						chk.Fatalf("numeric shapes: Stream did not return within 60 s")
+					}
+					if why != "" {
+						r.Report(chk.Violation{Key: fmt.Sprintf("rows:numeric-group%d", group), What: fmt.Sprintf("group=%d kind=%d rows=%d cfg=%s: %s", group, kind, rows, CfgName(cfg), why),
+							Kind: "numshapes", Replay: in, Recheck: func() string { return checkNum(in) }})
+					}
+				}
+			}
+		}
+	}
+	r.Eval(n)
+	r.States(n)
+	r.DistinctN(n)
+	r.Set("numeric_shape_histories", n)
+}
+
+// ReplayNum replays a numeric-shapes execution.
+func ReplayNum(input json.RawMessage) (bool, string) {
+	var in NumInput
+	if err := json.Unmarshal(input, &in); err != nil {
+		return false, err.Error()
+	}
+	why := checkNum(in)
+	if why == "" {
+		return false, "every row of the event is delivered with the values written"
+	}
+	return true, why
 }
